@@ -83,9 +83,19 @@ pub fn consensus(p: &Params) -> Consensus {
 pub fn consensus_with(p: &Params, genesis_compact_target: u32) -> Consensus {
     let always_success_script = lock();
     let tx = create_always_success_tx();
+    // VERIF_SATOSHI_GENESIS_CELLS (set by the C06 check only): every second spendable genesis cell is locked with args = the
+    // consensus' satoshi public-key hash.  They sit in NON-cellbase genesis transactions, so the "satoshi gift" occupied
+    // ratio (genesis cellbase outputs only) must not apply to them: spending one frees its plain occupied capacity.
+    let satoshi_cells = std::env::var("VERIF_SATOSHI_GENESIS_CELLS").is_ok();
+    let satoshi_lock = always_success_script
+        .clone()
+        .as_builder()
+        .args(Bytes::from(ckb_types::h160!("0x62e907b15cbf27d5425399ebf6f0fb50ebb88f18").0.to_vec()).pack())
+        .build();
     let transactions: Vec<TransactionView> = (0..p.genesis_cells as u64)
         .map(|i| {
             let data = Bytes::from(i.to_le_bytes().to_vec());
+            let always_success_script = if satoshi_cells && i % 2 == 0 { satoshi_lock.clone() } else { always_success_script.clone() };
             TransactionBuilder::default()
                 .input(CellInput::new(OutPoint::null(), 0))
                 .output(CellOutput::new_builder().capacity(capacity_bytes!(50_000)).lock(always_success_script.clone()).build())
